@@ -307,6 +307,11 @@ def tryCallbacks (obj : LState → JVal → LRes LVal) : LState → List Nat →
     | (st1, true) => tryCallbacks obj { st1 with callbacks := st1.callbacks.erase c } rest
     | (st1, false) => tryCallbacks obj st1 rest
 
+/-- `_try_callbacks` as repaired by fix F5i: nothing is tried while an object is still under
+construction (`_working` non-empty). -/
+def tryCallbacksIfIdle (obj : LState → JVal → LRes LVal) (st : LState) : LState :=
+  if st.working.isEmpty then tryCallbacks obj st st.callbacks else st
+
 /-- `GlueUnSerializer.object`.  Errors do not roll the state back (python exceptions unwind, the
 mutations stay): only the `finally` clause's removal from `_working` is performed. -/
 def object (T : Table) : Nat → LState → JVal → LRes LVal
@@ -328,12 +333,12 @@ def object (T : Table) : Nat → LState → JVal → LRes LVal
             | (st2, Except.error e) => ({ st2 with working := st2.working.erase s }, .error e)
             | (st2, Except.ok i) =>
               let st3 := { st2 with working := st2.working.erase s }
-              (tryCallbacks (object T f) st3 st3.callbacks, .ok (.ref i))
+              (tryCallbacksIfIdle (object T f) st3, .ok (.ref i))
           | some _ => (st, .error .malformed)
     | .obj cls flds =>
       match loadRec (object T f) none st cls flds with
       | (st2, Except.error e) => (st2, .error e)
-      | (st2, Except.ok i) => (tryCallbacks (object T f) st2 st2.callbacks, .ok (.own i))
+      | (st2, Except.ok i) => (tryCallbacksIfIdle (object T f) st2, .ok (.own i))
 
 def initL : LState := { memo := [], working := [], heap := [], callbacks := [], pend := [] }
 
